@@ -18,25 +18,25 @@ Proof. unfold zlen, zskip. rewrite skipn_length. lia. Qed.
 Lemma br_count_byte_range ch l : 0 <= count_byte ch l <= zlen l.
 Proof.
   induction l as [|c r IH]; cbn [count_byte].
-  - rewrite br_zlen_nil. lia.
+  - unfold zlen; cbn [length]; lia.
   - rewrite br_zlen_cons. destruct (N.eqb c ch); lia.
 Qed.
 Lemma br_count_blanks_range l : 0 <= count_blanks l <= zlen l.
 Proof.
   induction l as [|c r IH]; cbn [count_blanks].
-  - rewrite br_zlen_nil. lia.
+  - unfold zlen; cbn [length]; lia.
   - rewrite br_zlen_cons. destruct (N.eqb c 32); lia.
 Qed.
 Lemma br_count_digits_range l : 0 <= count_digits l <= zlen l.
 Proof.
   induction l as [|c r IH]; cbn [count_digits].
-  - rewrite br_zlen_nil. lia.
+  - unfold zlen; cbn [length]; lia.
   - rewrite br_zlen_cons. destruct (N.leb 48 c && N.leb c 57)%bool; lia.
 Qed.
 Lemma br_tls_range st l : 0 <= trim_left_space_len st l <= zlen l.
 Proof.
   induction l as [|c r IH]; cbn [trim_left_space_len].
-  - rewrite br_zlen_nil. lia.
+  - unfold zlen; cbn [length]; lia.
   - rewrite br_zlen_cons. destruct (is_space st c); lia.
 Qed.
 Lemma br_trs_range st l : 0 <= trim_right_space_len st l <= zlen l.
@@ -49,7 +49,7 @@ Lemma br_ip_loop_range bs cur width : forall w i p w' i',
   indent_position_loop bs cur w i p width = (w', i') -> i <= i' <= i + zlen bs.
 Proof.
   induction bs as [|c r IH]; intros w i p w' i' H; cbn [indent_position_loop] in H.
-  - injection H as _ Hi. rewrite br_zlen_nil. lia.
+  - injection H as _ Hi. unfold zlen; cbn [length]; lia.
   - rewrite br_zlen_cons. pose proof (br_zlen_nonneg r) as Hr.
     destruct (0 <? p).
     { apply IH in H. lia. }
@@ -99,8 +99,8 @@ Proof.
   destruct ((i <? zlen line) && negb (N.eqb (nth_byte line i) 10) && (fst (indent_width (zskip i line) 0) =? 0))%bool.
   { injection H as _ Ht. congruence. }
   destruct (Z.leb_spec (zlen line) i) as [Hle|Hlt].
-  { injection H as Hm _. subst m. cbn [m1 m2 m3 m4 m5]. repeat split; try lia. left. lia. }
-  injection H as Hm _. subst m. cbn [m1 m2 m3 m4 m5]. repeat split; try lia. right.
+  { injection H as Hm _. subst m. cbn [m1 m2 m3 m4 m5]. lia. }
+  injection H as Hm _. subst m. cbn [m1 m2 m3 m4 m5].
   destruct (N.eqb (nth_byte line (zlen line - 1)) 10 && negb (N.eqb (nth_byte line i) 10))%bool; lia.
 Qed.
 
@@ -257,16 +257,16 @@ Proof.
   rewrite br_zlen_zskip in Hk.
   destruct (Z.ltb_spec k 3) as [H3|H3]; [discriminate|].
   destruct (Z.ltb_spec (pos + k) (zlen line - 1)) as [Hi|Hi].
-  2:{ injection H as H1 H2 H3' H4. subst ch ind n info. repeat split; try lia. exact Hc. }
+  2:{ injection H as H1 H2 H3' H4. subst ch ind n info. repeat split; try lia; exact Hc. }
   set (rest := zskip (pos + k) line) in H.
   assert (Hrest : zlen rest = zlen line - (pos + k)).
   { subst rest. rewrite br_zlen_zskip. lia. }
   pose proof (br_tls_range space_table rest) as Hl.
   pose proof (br_trs_range space_table rest) as Hr.
   destruct (Z.ltb_spec (trim_left_space_len space_table rest) (zlen rest - trim_right_space_len space_table rest)) as [Hlr|Hlr].
-  2:{ injection H as H1 H2 H3' H4. subst ch ind n info. repeat split; try lia. exact Hc. }
+  2:{ injection H as H1 H2 H3' H4. subst ch ind n info. repeat split; try lia; exact Hc. }
   match type of H with (if ?b then _ else _) = _ => destruct b end; [discriminate|].
-  injection H as H1 H2 H3' H4. subst ch ind n info. repeat split; try lia. exact Hc.
+  injection H as H1 H2 H3' H4. subst ch ind n info. repeat split; try lia; exact Hc.
 Qed.
 
 Theorem fence_continue_in_range (line : bytes) (off pad : Z) (ch : N) (indent flen : Z) :
@@ -281,7 +281,7 @@ Proof.
   destruct (indent_width line off) as [w pos]. cbv zeta.
   match goal with |- match (if ?b then _ else _) with _ => _ end => destruct b end.
   - destruct line as [|c0 r0].
-    + rewrite br_zlen_nil. cbn. lia.
+    + cbn. lia.
     + rewrite br_zlen_cons in *. pose proof (br_zlen_nonneg r0) as Hr0.
       destruct (N.eqb (nth_byte (c0 :: r0) (1 + zlen r0 - 1)) 10); lia.
   - unfold indent_position_padding.
@@ -340,8 +340,9 @@ Proof.
   unfold scan_delimiter in H. cbv zeta in H.
   destruct (isd c) eqn:Hd; cbn [negb] in H; [|discriminate].
   pose proof (br_count_byte_head c r) as Hj.
-  destruct (Z.ltb_spec (count_byte c (c :: r)) minimum) as [Hm|Hm]; [discriminate|].
-  destruct (if count_byte c (c :: r) =? zlen (c :: r) then Ok 32%N else to_rune (c :: r) (count_byte c (c :: r)))
+  remember (count_byte c (c :: r)) as j eqn:Ej. clear Ej.
+  destruct (Z.ltb_spec j minimum) as [Hm|Hm]; [discriminate|].
+  destruct (if j =? zlen (c :: r) then Ok 32%N else to_rune (c :: r) j)
     as [a| |]; cbn [bind] in H; try discriminate.
-  destruct (N.eqb c 95); injection H as _ _ Hlen Hch; subst len ch; repeat split; try lia; exact Hd.
+  destruct (N.eqb c 95); injection H as _ _ Hlen Hch; subst len ch; (split; [lia|split; [lia|exact Hd]]).
 Qed.
